@@ -1,13 +1,13 @@
 SPECIFICATION Spec
 CONSTANTS
   N = 4
-  MaxView = 1
+  MaxView = 0
   H0 = 1
-  NH = 2
+  NH = 3
   InitSilentSets <- SilentOne
   NextSilentSets <- SilentNone
-  MaxSilentChanges = 0
-  WakeAllDone = FALSE
+  MaxSilentChanges = 1
+  WakeAllDone = TRUE
   Bug = "none"
 INVARIANTS AgreementH NoSkip Acceptable AcceptJustifiedH CacheHarmless
 CHECK_DEADLOCK FALSE
